@@ -43,6 +43,9 @@ pub fn fault_alphabet() -> Vec<Fault> {
         Fault::ReferralUnresolvable,
         Fault::CnameSelf,
         Fault::CnameCycle2,
+        Fault::CnameLoopStray(1),
+        Fault::CnameLoopStray(2),
+        Fault::CnameLoopStray(3),
         Fault::NxForeignSoa,
     ]
 }
